@@ -123,13 +123,17 @@ def workloadName (p : Pod) : String :=
 def labelsEq (a b : Labels) : Bool :=
   a.all (fun kv => b.get? kv.1 == some kv.2) && b.all (fun kv => a.get? kv.1 == some kv.2)
 
-/-- `createPodOwnersMap`: error when two pods of one owner differ in labels; otherwise one
-workload peer per distinct workload string (the pod standing for it is the last one met) -/
-def podOwnersMap (e : Engine) : Except Err (List (String × Pod)) :=
+/-- the pods in the order of their keys: `createPodOwnersMap` walks the pods map in sorted key order -/
+def sortedPods (e : Engine) : List Pod := e.pods.mergeSort (fun a b => podKey a ≤ podKey b)
+
+/-- the loop of `createPodOwnersMap` over a list of pods: error when two pods of one owner
+(namespace, owner kind, owner name) differ in labels; otherwise one workload peer per distinct workload string (the pod standing for it is the
+last one met in the list) -/
+def podOwnersMapOf (pods : List Pod) : Except Err (List (String × Pod)) :=
   let rec go (firsts : List (String × Pod)) (res : List (String × Pod)) : List Pod → Except Err (List (String × Pod))
     | [] => .ok res
     | p :: rest =>
-      let okey := p.ns ++ "//" ++ p.ownerName
+      let okey := p.ns ++ "//" ++ p.ownerKind ++ "/" ++ p.ownerName
       let chk : Except Err (List (String × Pod)) :=
         if p.ownerName == "" then .ok firsts
         else match firsts.find? (·.1 == okey) with
@@ -138,7 +142,11 @@ def podOwnersMap (e : Engine) : Except Err (List (String × Pod)) :=
       match chk with
       | .error err => .error err
       | .ok firsts' => go firsts' (upsert (·.1) (workloadName p, p) res) rest
-  go [] [] e.pods
+  go [] [] pods
+
+/-- `createPodOwnersMap`: the loop over the pods in sorted key order, so the pod standing for a
+workload is the one with the greatest key (`namespace/name`), whatever the order of the pods map -/
+def podOwnersMap (e : Engine) : Except Err (List (String × Pod)) := podOwnersMapOf e.sortedPods
 
 def ipMax : Int := 4294967295
 
